@@ -29,14 +29,16 @@ TOL = 1e-10
 VASP_TO_THZ = np.sqrt(1.602176634e-19 / 1.66053906660e-27) / 1e-10 / (2 * np.pi) / 1e12
 
 OPTS = {
-    "range": ["short", "long", "border", "chiral-short", "chiral-long"],
+    # "central": purely central springs (pair blocks k e e^T: whole rows vanish for bonds along a Cartesian axis)
+    "range": ["short", "long", "border", "chiral-short", "chiral-long", "central-long"],
     "layout": ["full", "compact"],
     "svecs": ["dense", "sparse"],
     # "@f": the same entry points on an object created with a non-default unit factor ("times the unit factor")
     "path": ["C/dm", "Py/dm", "C/run_qpoints", "C/at_q", "C/run_qpoints@f", "C/at_q@f"],
 }
 
-S_QUICK = [np.eye(3, dtype=int).tolist(), [[2, 0, 0], [0, 1, 0], [0, 0, 1]], [[2, 0, 0], [0, 2, 0], [0, 0, 2]],
+S_QUICK = [np.eye(3, dtype=int).tolist(), [[1, 1, 0], [0, 1, 0], [0, 0, 1]],  # the second one: another basis of the same lattice (det 1)
+           [[2, 0, 0], [0, 1, 0], [0, 0, 1]], [[2, 0, 0], [0, 2, 0], [0, 0, 2]],
            [[1, 0, 0], [0, 3, 0], [0, 0, 2]],
            [[1, 1, 0], [-1, 1, 0], [0, 0, 1]], [[2, 1, 0], [0, 1, 0], [0, 0, 1]], [[1, 1, 0], [0, 2, 0], [-1, 0, 2]],
            [[-1, 1, 1], [1, -1, 1], [1, 1, -1]]]
